@@ -81,6 +81,91 @@ template<class V> void vec_has_single_bit(const char* type, const std::vector<ty
     api_missing("C06", type, "has_single_bit", "not provided by this type");
 }
 
+// ---- thorough tier: all 2^32 values for the 32-bit element types (widest vector of the configuration + the 128-bit one
+// + scalar overloads).  The fast models use compiler builtins; they are cross-checked against the bit-loop models on
+// the lattice + random set first, so a wrong builtin model makes the run inconclusive instead of silently weak.
+struct FM {
+    static uint32_t popcount(uint32_t x) { return (uint32_t)__builtin_popcount(x); }
+    static uint32_t clz(uint32_t x) { return x ? (uint32_t)__builtin_clz(x) : 32u; }
+    static uint32_t clo(uint32_t x) { return clz(~x); }
+    static uint32_t ctz(uint32_t x) { return x ? (uint32_t)__builtin_ctz(x) : 32u; }
+    static uint32_t cto(uint32_t x) { return ctz(~x); }
+    static uint32_t width(uint32_t x) { return 32u - clz(x); }
+    static uint32_t floor(uint32_t x) { return x ? (1u << (31 - clz(x))) : 0u; }
+    static uint32_t ceil(uint32_t x) { if (x <= 1) return 1; uint32_t w = width(x - 1); return w >= 32 ? 0u : (1u << w); }
+    static uint32_t bswap(uint32_t x) { return __builtin_bswap32(x); }
+    static uint32_t cls(uint32_t x) { uint32_t y = (x >> 31) ? ~x : x; return clz(y) - 1; }
+};
+
+template<class V> struct SweepInt : std::integral_constant<bool, sizeof(typename V::scalar) == 4 && (
+#if defined(AVEL_AVX512F)
+    V::width == 16 || V::width == 4
+#elif defined(AVEL_AVX2)
+    V::width == 8 || V::width == 4
+#elif defined(AVEL_SSE2)
+    V::width == 4
+#else
+    V::width == 1
+#endif
+)> {};
+
+template<class V, class Op, class Model>
+void isweep32(const char* type, const char* opname, Op op, Model model, bool nonneg_only) {
+    typedef typename V::scalar T;
+    const unsigned W = V::width;
+    if (!begin_cell("C06", type, opname)) return;
+    Cell& c = cell();
+    unsigned bits = 32;
+    if (const char* e = std::getenv("VK_SWEEP_BITS")) bits = (unsigned)std::atoi(e);
+    const uint64_t total = 1ull << bits, stride = 1ull << (32 - bits);
+    for (uint64_t base = 0; base < total && c.traps < 64; base += W) {
+        std::array<T, V::width> a, res;
+        for (unsigned i = 0; i < W; ++i) a[i] = (T)(uint32_t)(((base + i) % total) * stride + (stride > 1 ? (base >> 7) % stride : 0));
+        volatile bool ok = false;
+        VK_GUARDED(ucls((uint32_t)a[0], 32), ("a=" + hex(a[0])), { res = op(V(a)); ok = true; });
+        c.cases++;
+        if ((base & 0xFFFFF) == 0) { c.cls_add(ucls((uint32_t)a[0], 32)); if (c.cases <= 2) add_sample(std::string(opname) + " sweep from " + hex(a[0])); }
+        if (!ok) continue;
+        for (unsigned i = 0; i < W; ++i) {
+            if (nonneg_only && std::is_signed<T>::value && a[i] < 0) continue;
+            T exp = (T)model((uint32_t)a[i]);
+            c.lanes++;
+            if (res[i] != exp) viol("value", ucls((uint32_t)a[i], 32), (int)i, "a=" + hex(a[i]), hex(res[i]), hex(exp));
+        }
+    }
+    end_cell();
+}
+
+#define SW_OP(NAME, MODEL, NONNEG)                                                                          \
+    template<class V> void sw_##NAME(const char* type, std::true_type) {                                    \
+        isweep32<V>(type, #NAME "/all2^32", [](V a) { return avel::to_array(avel::NAME(a)); }, [](uint32_t x) { return FM::MODEL(x); }, NONNEG); \
+    }                                                                                                       \
+    template<class V> void sw_##NAME(const char*, std::false_type) {}
+SW_OP(popcount, popcount, false) SW_OP(countl_zero, clz, false) SW_OP(countl_one, clo, false) SW_OP(countr_zero, ctz, false)
+SW_OP(countr_one, cto, false) SW_OP(bit_width, width, false) SW_OP(bit_floor, floor, true) SW_OP(bit_ceil, ceil, true)
+SW_OP(byteswap, bswap, false) SW_OP(countl_sign, cls, false)
+
+template<class V> void sweep_all(const char*, std::false_type) {}
+template<class V> void sweep_all(const char* type, std::true_type) {
+    if (!opt().thorough) return;
+    // cross-check of the fast models against the bit-loop models
+    if (begin_cell("C06", type, "fast_model_selfcheck")) {
+        Cell& c = cell();
+        auto vals = int_values<uint32_t>(200000, opt().seed);
+        for (uint32_t x : vals) {
+            c.cases++; c.lanes += 10; c.cls_add(ucls(x, 32));
+            bool ok = FM::popcount(x) == BM<uint32_t>::popcount(x) && FM::clz(x) == BM<uint32_t>::clz(x) && FM::clo(x) == BM<uint32_t>::clo(x) && FM::ctz(x) == BM<uint32_t>::ctz(x) &&
+                      FM::cto(x) == BM<uint32_t>::cto(x) && FM::width(x) == BM<uint32_t>::width(x) && FM::floor(x) == BM<uint32_t>::floor(x) && FM::ceil(x) == BM<uint32_t>::ceil(x) &&
+                      FM::bswap(x) == BM<uint32_t>::bswap(x) && FM::cls(x) == BM<uint32_t>::cls(x);
+            if (!ok) { std::fprintf(stderr, "vk: fast model disagrees with bit-loop model at %08x\n", x); std::exit(9); }
+        }
+        add_sample("fast builtin models == bit-loop models on lattice+random");
+        end_cell();
+    }
+#define SWR(NAME) sw_##NAME<V>(type, has_##NAME<V>());
+    SWR(popcount) SWR(countl_zero) SWR(countl_one) SWR(countr_zero) SWR(countr_one) SWR(bit_width) SWR(bit_floor) SWR(bit_ceil) SWR(byteswap) SWR(countl_sign)
+}
+
 template<class V>
 void run(const char* type) {
     typedef typename V::scalar T;
@@ -98,7 +183,9 @@ void run(const char* type) {
     vec_has_single_bit<V>(type, vals, has_has_single_bit<V>());
     vec_byteswap<V>(type, vals, has_byteswap<V>());
     vec_countl_sign<V>(type, vals, has_countl_sign<V>());
+    sweep_all<V>(type, SweepInt<V>());
 }
+
 
 // ---- scalar overloads ----
 template<class T, class F, class Mo>
